@@ -14,12 +14,24 @@ import (
 )
 
 var tr *hx.Trace
-var env = &vol.Env{}
+
+type line struct {
+	op         string
+	args, outs []string
+}
+
+// runner: one real Store + the trace lines it produced (tasks run in parallel, each on
+// its own store; their segments are written to the trace in task order).
+type runner struct {
+	env   *vol.Env
+	lines []line
+}
 
 func u64(s string) uint64 { v, _ := strconv.ParseUint(s, 10, 64); return v }
 
 // exec runs one op line (op + args) on the real code and writes the trace line.
-func exec(f []string) {
+func (x *runner) exec(f []string) {
+	env := x.env
 	op, a := f[0], f[1:]
 	outs := hx.Guard(func() []string {
 		switch op {
@@ -52,13 +64,13 @@ func exec(f []string) {
 		}
 		return []string{"unknown-op"}
 	})
-	tr.Op(op, a, outs)
+	x.lines = append(x.lines, line{op, a, outs})
 }
 
-func w(id uint64, ck uint32, c *vol.Content) {
-	exec(append([]string{"w", hx.U(id), hx.U(uint64(ck))}, vol.ContentArgs(c)...))
+func (x *runner) w(id uint64, ck uint32, c *vol.Content) {
+	x.exec(append([]string{"w", hx.U(id), hx.U(uint64(ck))}, vol.ContentArgs(c)...))
 }
-func op2(op string, id uint64, ck uint32) { exec([]string{op, hx.U(id), hx.U(uint64(ck))}) }
+func (x *runner) op2(op string, id uint64, ck uint32) { x.exec([]string{op, hx.U(id), hx.U(uint64(ck))}) }
 
 // ---- generators -------------------------------------------------------------------
 
@@ -93,53 +105,60 @@ func alphabetB() []sym {
 	return append(al, sym{"d", 1, 0, nil}, sym{"ro", 1, 0, nil}, sym{"ro", 0, 0, nil})
 }
 
-func runSym(base uint64, s sym) {
+func (x *runner) runSym(base uint64, s sym) {
 	switch s.op {
 	case "w":
-		w(base+uint64(s.id), cookies[s.ck], s.c)
+		x.w(base+uint64(s.id), cookies[s.ck], s.c)
 	case "ro":
-		exec([]string{"ro", strconv.Itoa(s.id)})
+		x.exec([]string{"ro", strconv.Itoa(s.id)})
 	default:
-		op2(s.op, base+uint64(s.id), cookies[s.ck])
+		x.op2(s.op, base+uint64(s.id), cookies[s.ck])
 	}
 }
 
+
+// histories on fresh ids of one store; a new store every `per` histories
 type histState struct {
+	x     *runner
 	kind  string
 	count int
 	base  uint64
 }
 
-// runHistory executes one history on fresh ids; a new store every 40 histories.
+const perStore = 250
+
 func (h *histState) run(al []sym, word []int) {
-	if h.count%40 == 0 {
-		exec([]string{"reset", h.kind, "-"})
+	x := h.x
+	if h.count%perStore == 0 {
+		x.exec([]string{"reset", h.kind, "-"})
 		h.base = 0
 	}
 	h.count++
 	h.base += 2
 	touchedRo := false
 	for _, k := range word {
-		runSym(h.base, al[k])
+		x.runSym(h.base, al[k])
 		if al[k].op == "ro" {
 			touchedRo = true
 		}
 	}
 	// final sweep: what the volume now serves
-	op2("r", h.base+1, cookies[0])
-	op2("r", h.base+2, cookies[0])
+	x.op2("r", h.base+1, cookies[0])
+	x.op2("r", h.base+2, cookies[0])
 	if touchedRo {
-		exec([]string{"ro", "0"})
+		x.exec([]string{"ro", "0"})
 	}
 }
 
-func exhaustive(kind string, al []sym, length int) {
-	h := &histState{kind: kind}
+// all words of the given length that start with `first`
+func exhaustive(x *runner, kind string, al []sym, length, first int) {
+	h := &histState{x: x, kind: kind}
 	word := make([]int, length)
+	word[0] = first
 	for {
 		h.run(al, word)
 		i := length - 1
-		for i >= 0 {
+		for i >= 1 {
 			word[i]++
 			if word[i] < len(al) {
 				break
@@ -147,14 +166,14 @@ func exhaustive(kind string, al []sym, length int) {
 			word[i] = 0
 			i--
 		}
-		if i < 0 {
+		if i < 1 {
 			return
 		}
 	}
 }
 
-func sampled(rng *hx.Rng, kind string, al []sym, length, n int) {
-	h := &histState{kind: kind}
+func sampled(x *runner, rng *hx.Rng, kind string, al []sym, length, n int) {
+	h := &histState{x: x, kind: kind}
 	word := make([]int, length)
 	for i := 0; i < n; i++ {
 		for j := range word {
@@ -216,8 +235,9 @@ func randContent(rng *hx.Rng, prev []*vol.Content, http bool) *vol.Content {
 	return c
 }
 
-func randomHistory(rng *hx.Rng, kind, ttl string, nops int, http bool) {
-	exec([]string{"reset", kind, ttl})
+
+func randomHistory(x *runner, rng *hx.Rng, kind, ttl string, nops int, http bool) {
+	x.exec([]string{"reset", kind, ttl})
 	nid := 2 + rng.Intn(5)
 	ids := make([]uint64, nid)
 	for i := range ids {
@@ -236,44 +256,44 @@ func randomHistory(rng *hx.Rng, kind, ttl string, nops int, http bool) {
 	for k := 0; k < nops; k++ {
 		id := ids[rng.Intn(nid)]
 		ck := cks[rng.Intn(nck)]
-		x := rng.Intn(100)
+		r := rng.Intn(100)
 		switch {
-		case x < 42:
+		case r < 42:
 			c := randContent(rng, prev[id], http)
 			prev[id] = append(prev[id], c)
-			w(id, ck, c)
-		case x < 62:
-			op2("r", id, ck)
-		case x < 72:
+			x.w(id, ck, c)
+		case r < 62:
+			x.op2("r", id, ck)
+		case r < 72:
 			if http {
-				op2("hr", id, ck)
+				x.op2("hr", id, ck)
 			} else {
-				op2("r", id, ck)
+				x.op2("r", id, ck)
 			}
-		case x < 84:
-			op2("d", id, ck)
-		case x < 92:
+		case r < 84:
+			x.op2("d", id, ck)
+		case r < 92:
 			if http {
-				op2("hd", id, ck)
+				x.op2("hd", id, ck)
 			} else {
-				op2("d", id, ck)
+				x.op2("d", id, ck)
 			}
-		case x < 96:
-			exec([]string{"ro", "1"})
+		case r < 96:
+			x.exec([]string{"ro", "1"})
 		default:
-			exec([]string{"ro", "0"})
+			x.exec([]string{"ro", "0"})
 		}
 	}
-	exec([]string{"ro", "0"})
+	x.exec([]string{"ro", "0"})
 	for _, id := range ids {
-		op2("r", id, cks[0])
+		x.op2("r", id, cks[0])
 	}
 }
 
 // sortedHistory: writes/deletes on a writable volume, then reopen read-only (sorted-file
 // needle map) and read everything; writes and deletes are rejected there.
-func sortedHistory(rng *hx.Rng, nops int) {
-	exec([]string{"reset", "mem", "-"})
+func sortedHistory(x *runner, rng *hx.Rng, nops int) {
+	x.exec([]string{"reset", "mem", "-"})
 	nid := 2 + rng.Intn(5)
 	ids := make([]uint64, nid)
 	for i := range ids {
@@ -283,66 +303,111 @@ func sortedHistory(rng *hx.Rng, nops int) {
 	for k := 0; k < nops; k++ {
 		id := ids[rng.Intn(nid)]
 		if rng.Chance(3, 4) {
-			w(id, ck, randContent(rng, nil, false))
+			x.w(id, ck, randContent(rng, nil, false))
 		} else {
-			op2("d", id, ck)
+			x.op2("d", id, ck)
 		}
 	}
-	exec([]string{"sorted"})
+	x.exec([]string{"sorted"})
 	for _, id := range ids {
-		op2("r", id, ck)
-		op2("hr", id, ck+1)
+		x.op2("r", id, ck)
+		x.op2("hr", id, ck+1)
 	}
-	w(ids[0], ck, plain("late"))
-	op2("d", ids[0], ck)
-	op2("hd", ids[0], ck)
+	x.w(ids[0], ck, plain("late"))
+	x.op2("d", ids[0], ck)
+	x.op2("hd", ids[0], ck)
 	for _, id := range ids {
-		op2("r", id, ck)
+		x.op2("r", id, ck)
 	}
 }
+
+type task func(x *runner, rng *hx.Rng)
 
 func main() {
 	a := hx.ParseArgs()
 	tr = hx.NewTrace(a.Out)
-	defer func() { env.Close(); tr.Close() }()
+	defer tr.Close()
 	if a.Ops != "" {
+		x := &runner{env: &vol.Env{}}
 		for _, f := range hx.ReadOps(a.Ops) {
-			exec(f)
+			x.exec(f)
+		}
+		x.env.Close()
+		for _, l := range x.lines {
+			tr.Op(l.op, l.args, l.outs)
 		}
 		return
 	}
-	rng := hx.NewRng(a.Seed)
+	var tasks []task
 	length := 3
 	if a.Thorough() {
 		length = 4
 	}
+	alA, alB := alphabetA(), alphabetB()
 	for _, kind := range []string{"mem", "ldb"} {
-		exhaustive(kind, alphabetA(), length)
-		exhaustive(kind, alphabetB(), 4)
-		if !a.Thorough() {
-			sampled(rng, kind, alphabetA(), 4, a.N(1500))
-			sampled(rng, kind, alphabetA(), 6, a.N(500))
-		} else {
-			sampled(rng, kind, alphabetA(), 6, a.N(2000))
-			sampled(rng, kind, alphabetB(), 6, a.N(2000))
+		kind := kind
+		for f := range alA {
+			f := f
+			tasks = append(tasks, func(x *runner, rng *hx.Rng) { exhaustive(x, kind, alA, length, f) })
+		}
+		for f := range alB {
+			f := f
+			tasks = append(tasks, func(x *runner, rng *hx.Rng) { exhaustive(x, kind, alB, length, f) })
+		}
+		for i := 0; i < 8; i++ {
+			tasks = append(tasks, func(x *runner, rng *hx.Rng) {
+				sampled(x, rng, kind, alA, 4, a.N(120))
+				sampled(x, rng, kind, alA, 6, a.N(60))
+				sampled(x, rng, kind, alB, 6, a.N(60))
+			})
 		}
 	}
-	nh := a.N(100)
-	for i := 0; i < nh; i++ {
-		kind := "mem"
-		if i%2 == 1 {
-			kind = "ldb"
-		}
-		ttl := "-"
-		if i%5 == 4 {
-			ttl = "3h"
-		}
-		randomHistory(rng, kind, ttl, 50+rng.Intn(351), i%3 != 0)
+	for i := 0; i < a.N(60); i++ {
+		i := i
+		tasks = append(tasks, func(x *runner, rng *hx.Rng) {
+			kind := "mem"
+			if i%2 == 1 {
+				kind = "ldb"
+			}
+			ttl := "-"
+			if i%5 == 4 {
+				ttl = "3h"
+			}
+			randomHistory(x, rng, kind, ttl, 50+rng.Intn(351), i%3 != 0)
+		})
 	}
-	for i := 0; i < a.N(20); i++ {
-		sortedHistory(rng, 10+rng.Intn(60))
+	for i := 0; i < a.N(16); i++ {
+		tasks = append(tasks, func(x *runner, rng *hx.Rng) { sortedHistory(x, rng, 10+rng.Intn(60)) })
 	}
-	if env.Store == nil {
+
+	// run tasks on a worker pool; write segments in task order (deterministic per seed)
+	results := make([]chan []line, len(tasks))
+	for i := range results {
+		results[i] = make(chan []line, 1)
+	}
+	next := make(chan int, len(tasks))
+	for i := range tasks {
+		next <- i
+	}
+	close(next)
+	workers := 12
+	for wk := 0; wk < workers; wk++ {
+		go func() {
+			for i := range next {
+				x := &runner{env: &vol.Env{}}
+				tasks[i](x, hx.NewRng(a.Seed*1000003+uint64(i)))
+				x.env.Close()
+				results[i] <- x.lines
+			}
+		}()
+	}
+	for i := range tasks {
+		for _, l := range <-results[i] {
+			tr.Op(l.op, l.args, l.outs)
+		}
+	}
+	if tr.Lines == 0 {
 		fmt.Fprintln(os.Stderr, "no history ran")
+		os.Exit(2)
 	}
 }
